@@ -562,6 +562,12 @@ let make_m1 (params : string list) : machine =
                 match x with XPair (_, v) -> show_out v | _ -> "err"
               end
             end
+        | [ "davail" ] ->
+            (* a tree object that has cached nothing discovers the range from the stored keys
+               (Discover.v): exact also when a stale root key is present *)
+            (match discovered_available (phys_of !rk !st.forest) with
+             | Some l -> "is:[" ^ String.concat "," (List.map string_of_z l) ^ "]"
+             | None -> "modelfail:discovery out of fuel")
         | [ "audit"; "phys" ] -> show_store "ap" (phys_of !rk !st.forest)
         | [ "prune"; n ] ->
             (* the result of the physical deletion does not depend on the flush schedule
@@ -597,6 +603,10 @@ let make_m1 (params : string list) : machine =
         | [ "audit"; "nodes" ] -> expected_nodes !st
         | [ "audit"; "raw" ] -> expected_nodes !st
         | [ "audit"; "fast" ] -> show_fast ()
+        | [ "audit"; "fastvals" ] ->
+            (* a database written by the Coq encoders (backward format check): label and values of
+               the index as the encoders wrote them, compared while the index is enabled *)
+            if !fast then expected_fast !st else "*"
         | [ "reopen"; f ] when (f = "fast=true" || f = "fast=false") && (fast := (f = "fast=true"); false) -> ""
         | [ "r"; t; "export" ] ->
             (* post-order stream of (key, value | -, node version, height) *)
